@@ -417,6 +417,11 @@ class FileDescriptor(_ConsumerMixin, _LogOwner):
                 self.disconnecting = 1
 
     def loseWriteConnection(self):
+        if self._writeDisconnected:
+            # The write side is already shut down: asking again must not make
+            # doWrite try to send on it (and take the error for a lost
+            # connection).
+            return
         self._writeDisconnecting = True
         self.startWriting()
 
